@@ -62,6 +62,7 @@ fn index_of_uf(s: &FrequencySketch, hash: u64, depth: u8) -> usize {
 
 pub(crate) fn any_sketch_pub<const N: usize>() -> FrequencySketch { any_sketch::<N>() }
 pub(crate) fn assume_sizing_inv_pub<const N: usize>(s: &FrequencySketch) { assume_sizing_inv::<N>(s) }
+pub(crate) fn is_empty(s: &FrequencySketch) -> bool { s.table.is_empty() && s.size == 0 && s.sample_size == 0 && s.table_mask == 0 }
 /// (table words, size) of a 4-word sketch
 pub(crate) fn snapshot4(s: &FrequencySketch) -> ([u64; 4], u32) {
     ([s.table[0], s.table[1], s.table[2], s.table[3]], s.size)
